@@ -47,7 +47,7 @@ def main(prop, ks):
                 shutil.copy(f"{src}/patch.diff", dst); shutil.copy(f"{src}/demo.diff", dst)
                 meta["confirmed_by_lead"] = res
                 meta["demo_cmd"] = meta["demo_cmd"].replace(f"{ROOT}/{prop}", "<scratch worktree of /repo>")
-                meta["round"] = 2 if OFFSET else 1
+                meta["round"] = OFFSET // 3 + 1
                 meta["how_confirmed"] = "scratch worktree of /repo HEAD: git apply demo.diff -> demo passes; + git apply patch.diff -> demo fails; patch.diff alone -> cargo build --workspace and cargo nextest run --workspace (319 tests) pass"
                 json.dump(meta, open(f"{dst}/meta.json", "w"), indent=1)
     finally:
